@@ -516,6 +516,7 @@ type caseOut struct {
 	Stream  string   `json:"stream,omitempty"` // rt mode: the bytes relay #2's tunnel delivered (cut applied)
 	Want    []string `json:"want,omitempty"`   // rt mode: datagrams completely encoded before the cut
 	T       *tcpObs  `json:"t,omitempty"`
+	R       *realObs `json:"r,omitempty"` // udpreal / vconn modes
 }
 
 func (o *caseOut) fail(key, format string, a ...interface{}) {
@@ -837,6 +838,10 @@ func runCase(raw json.RawMessage) interface{} {
 		runUDPCase(&c, out)
 	case "tcp":
 		runTCPCase(&c, out)
+	case "udpreal":
+		runUDPRealCase(&c, out)
+	case "vconn":
+		runVConnCase(&c, out)
 	default:
 		panic("bad mode " + c.Mode)
 	}
@@ -935,6 +940,10 @@ func gen() {
 					}
 				}
 			}
+		case *ast.CallExpr: // newUDPBatchWriter(realUDP, batchSize)
+			if fn, ok := x.Fun.(*ast.Ident); ok && fn.Name == "newUDPBatchWriter" && len(x.Args) == 2 {
+				put("call:newUDPBatchWriter", evalConst(x.Args[1], env))
+			}
 		case *ast.BinaryExpr: // comparisons against literals: buffered < 256*1024, packetLen > 65535, buffered-processed >= 2
 			if x.Op == token.LSS || x.Op == token.GTR || x.Op == token.GEQ || x.Op == token.EQL {
 				if v := evalConst(x.Y, env); v != nil && v.Kind() == constant.Int {
@@ -962,6 +971,28 @@ func gen() {
 	fmt.Printf("Definition UdpMaxRecord : N := %s.     (* tunnel->UDP: packetLen > _ is illegal *)\n", one("cmp:packetLen>", 0))
 	fmt.Printf("Definition UdpHeaderLen : N := %s.     (* tunnel->UDP: for buffered-processed >= _ *)\n", one("cmp:buffered-processed>=", 0))
 	fmt.Printf("Definition UdpWriteBatch : N := %s.    (* tunnel->UDP: const batchSize *)\n", one("const:batchSize", 0))
+	fmt.Printf("Definition UdpBatchWriterCap : N := %s. (* tunnel->UDP: newUDPBatchWriter(realUDP, _): messages the sendmmsg writer can hold *)\n", one("call:newUDPBatchWriter", 0))
+	fmt.Printf("Definition UdpFlushAtLeast : bool := %s. (* tunnel->UDP: the in-loop flush test is len(pendingPackets) >= batchSize *)\n", flushCmp(udp))
+}
+
+// flushCmp: "true" iff func UDP contains the comparison `len(pendingPackets) >= batchSize`
+func flushCmp(fn *ast.FuncDecl) string {
+	found := "false"
+	ast.Inspect(fn, func(n ast.Node) bool {
+		if b, ok := n.(*ast.BinaryExpr); ok && b.Op == token.GEQ {
+			if call, ok := b.X.(*ast.CallExpr); ok && len(call.Args) == 1 {
+				if f, ok := call.Fun.(*ast.Ident); ok && f.Name == "len" {
+					if a, ok := call.Args[0].(*ast.Ident); ok && a.Name == "pendingPackets" {
+						if y, ok := b.Y.(*ast.Ident); ok && y.Name == "batchSize" {
+							found = "true"
+						}
+					}
+				}
+			}
+		}
+		return true
+	})
+	return found
 }
 
 func keys(m map[string][]constant.Value) []string {
